@@ -27,6 +27,9 @@ Definition mon_probe (recl : N) (ok : bool) : N :=
 (** after the sweeper has run until it finds nothing to do: no dropped exchange slot is left *)
 Definition mon_swept (ndropped : N) : bool := ndropped =? 0.
 
+(** after quiescence the single RX buffer is free (1 = locked or still holding a packet) *)
+Definition mon_rx_free (busy : N) : bool := busy =? 0.
+
 (** the rendezvous slot after every requester is gone *)
 Definition mon_rdv_end (slot : N) : bool := slot =? 0.
 
